@@ -1,8 +1,7 @@
 (* C07 -- RPC capability references are counted exactly; nothing leaks or double-frees.
-   Statements only.  Proved: the primitives of the export table keep the count equation, the
-   Release of an import carries exactly the references received and generations are never reused
-   (F20), Close empties every table.  The history-level statements stay `_partial`. *)
-From CV Require Import Rpc.Rpc Rpc.RpcSpec Rpc.RpcProofs Rpc.RpcInv Rpc.RpcResp Rpc.RpcLocal Rpc.RpcHist Rpc.RpcQids Rpc.RpcRefuted.
+   Statements only.  History level: export_count, import_release, close_releases_all; the
+   handler-level lemmas of the first round are kept (complete lemmas about single primitives). *)
+From CV Require Import Rpc.Rpc Rpc.RpcSpec Rpc.RpcProofs Rpc.RpcInv Rpc.RpcResp Rpc.RpcLocal Rpc.RpcHist Rpc.RpcQids Rpc.RpcImports Rpc.RpcRefs Rpc.RpcRefuted.
 Open Scope Z_scope.
 
 (* ================= history-level theorem (second round) =================
@@ -12,7 +11,7 @@ Open Scope Z_scope.
    [s_sent] / [s_rel] are cumulative ghost counters: sent is bumped exactly where a senderHosted
    descriptor is written ([C07_sent_is_descriptors]); released by the count of every successful
    releaseExport -- Release messages, Finish(releaseResultCaps), Return(releaseParamCaps) after the
-   repair of F19 ([C07_export_count_partial] below: the count is booked exactly, over-release is
+   repair of F19 ([C07_release_export_exact] below: the count is booked exactly, over-release is
    refused without change). *)
 Theorem C07_export_count : forall boot evs s out, work evs < 4294967295 -> run_o (init boot) evs [] = Ok (s, out) -> s_shut s = false ->
   exp_count (s_exp s) (s_sent s) (s_rel s) /\ slots_free (s_egen s) (s_exp s).
@@ -22,46 +21,84 @@ Theorem C07_sent_is_descriptors : forall x s s1 d oe, send_cap cfg_fixed x s = O
   forall e, cget e (s_sent s1) = cget e (s_sent s) + (match d with DSH i => if e =? i then 1 else 0 | _ => 0 end) /\ s_rel s1 = s_rel s.
 Proof. exact send_cap_sent. Qed.
 Print Assumptions C07_sent_is_descriptors.
-(* import_release and close_releases_all remain at the strength of the first round (below): the
-   history-level forms need balances that thread through every release of a capability (all
-   handlers), which was not completed. *)
+(* import_release over histories.  [s_recv] is a ghost counter of the machine: the descriptors
+   (senderHosted / senderPromise) received per import id, bumped by addImport and nowhere else;
+   [rlsum i out] sums the referenceCounts of the Release messages for id i in the outbox; [wire i]
+   is the wireRefs of i's entry (0 if there is none).  While the connection is up:
+     rlsum i out + wire i = received i,   every entry has wireRefs > 0,
+     no entry -> everything received for i has been released (exactly, never more).
+   A Release is sent only by importClient.Shutdown of the entry's current generation, carries the
+   entry's wireRefs and deletes the entry ([C07_import_release_exact] below); the step that drops
+   the last local reference of the current client (no call in progress on it) is that step
+   ([C07_release_at_last_ref]).  When a re-import finds the entry of a client whose Shutdown is
+   still postponed, the new generation takes the entry over WITH its wireRefs (as import.go does):
+   the references of the old generation are then given back by the new generation's Release --
+   the balance is per import id, which is what the peer counts. *)
+Theorem C07_import_release : forall boot evs s out, work evs < 4294967295 -> run_o (init boot) evs [] = Ok (s, out) -> s_shut s = false ->
+  (forall i, rlsum i out + wire i (s_imp s) = cget i (s_recv s)) /\
+  (forall i e, aget i (s_imp s) = Some e -> 0 < i_wire e) /\
+  (forall i, aget i (s_imp s) = None -> rlsum i out = cget i (s_recv s)).
+Proof. exact import_release. Qed.
+Print Assumptions C07_import_release.
+Theorem C07_release_at_last_ref : forall i g s e s1 o, imp_release cfg_fixed i g s = Ok (s1, o) -> s_shut s = false ->
+  aget i (s_imp s) = Some e -> i_gen e = g -> i_refs e = 1 -> busy_get i g (s_busy s) = 0 ->
+  o = [ORelease i (i_wire e)] /\ aget i (s_imp s1) = None.
+Proof. exact release_at_last_ref. Qed.
+Print Assumptions C07_release_at_last_ref.
+(* close_releases_all over histories.  [s_lrefs] counts, per local server j, the references held on
+   it.  [RC j s] is what the tables hold: the bootstrap capability, the exports whose client is j,
+   the capabilities j in the arguments and result tables of the answers, the application handles
+   resolved to j, the embargoes on j ([HND] = the handles alone).  For EVERY history:
+   - while the connection is up the count equals RC exactly (the invariant also says that every
+     embargo's reference count is the number of handles that name it, that an answer that has
+     returned holds no arguments, and that the handle of an unresolved bootstrap question is
+     still unresolved);
+   - after Close / Abort the question, answer, export and embargo tables are empty, the bootstrap
+     reference is gone, and the count equals the number of application handles still resolved to j;
+   - hence a server none of whose handles is left has count 0: every reference the connection took
+     on it has been given back, exactly once (its Shutdown has run; the count is never negative
+     since it always equals a number of holders).
+   The end-of-history observation of the differential run (release of every handle, Close, Shutdown
+   count 1 for every server) is this statement on the implementation. *)
+Theorem C07_close_releases_all : forall boot evs s out, work evs < 4294967295 -> run_o (init boot) evs [] = Ok (s, out) ->
+  (s_shut s = false -> forall j, cget j (s_lrefs s) = RC j s) /\
+  (s_shut s = true -> s_qs s = [] /\ s_ans s = [] /\ s_exp s = [] /\ s_emb s = [] /\ s_boot s = false /\
+                      forall j, cget j (s_lrefs s) = HND j (s_handles s)) /\
+  (s_shut s = true -> forall j, (forall h, In h (s_handles s) -> h <> HCap (CLocal j)) -> cget j (s_lrefs s) = 0).
+Proof. exact close_releases_all. Qed.
+Print Assumptions C07_close_releases_all.
 
 (* ================= first round =================
-   export_count, FULL STATEMENT as first written (its invariant part is now C07_export_count):
+   export_count as first written (proved since as C07_export_count + C07_close_releases_all):
      in every reachable state that is not shut down, for every export id e:
        entry present  -> wireRefs e = sent e - released e > 0,
        entry absent   -> sent e = released e,
      where sent counts the senderHosted descriptors emitted for e and released sums Release counts,
      Finish(releaseResultCaps) and Return(releaseParamCaps); the export's client is released exactly
      once, when the count reaches 0 or at Close.
-   PROVED PART: releaseExport (used by Release, Finish and -- after the repair of F19 -- Return)
+   Handler level: releaseExport (used by Release, Finish and -- after the repair of F19 -- Return)
    keeps the equation, fails without any change when the entry is absent or too many references
    are released, and books exactly the count otherwise.
-   MISSING: the same for sendCap's new-entry case needs "free ids have empty slots" over histories;
-   the accounting of client references (s_lrefs) is checked by the correspondence run only
-   (Shutdown counts of the instrumented capabilities, end of every history). *)
-Theorem C07_export_count_partial : forall id n s, exp_count_ok s -> 0 <= n ->
+   (History level: C07_export_count, C07_close_releases_all above.) *)
+Theorem C07_release_export_exact : forall id n s, exp_count_ok s -> 0 <= n ->
   let '(s1, oc, err) := release_export id n s in
   exp_count_ok s1 /\ (err = true -> s1 = s) /\ (err = false -> cget id (s_rel s1) = cget id (s_rel s) + n).
 Proof. exact release_export_count. Qed.
-Print Assumptions C07_export_count_partial.
+Print Assumptions C07_release_export_exact.
 
-(* import_release, FULL STATEMENT (not proved at this strength):
-     for every import generation exactly one Release is sent, when its last local reference goes,
-     with referenceCount = number of descriptors received for it.
-   PROVED PART: importClient.Shutdown of the current generation sends exactly [Release id wireRefs]
+(* import_release, handler level (the history-level form is C07_import_release above):
+   importClient.Shutdown of the current generation sends exactly [Release id wireRefs]
    and deletes the entry, any other generation sends nothing; addImport adds one to wireRefs per
    descriptor; a re-created client gets a generation no earlier client of the connection had.
-   MISSING: the induction over histories that the last local reference triggers the Shutdown once
-   (reference counters of import clients, [i_refs]). *)
-Theorem C07_import_release_partial : forall i g s s1 o, imp_shutdown cfg_fixed i g s = Ok (s1, o) ->
+   *)
+Theorem C07_import_release_exact : forall i g s s1 o, imp_shutdown cfg_fixed i g s = Ok (s1, o) ->
   match aget i (s_imp s) with
   | Some e => if negb (s_shut s) && (i_gen e =? g) then o = [ORelease i (i_wire e)] /\ aget i (s_imp s1) = None
               else o = [] /\ s1 = s
   | None => o = [] /\ s1 = s
   end.
 Proof. exact import_release_exact. Qed.
-Print Assumptions C07_import_release_partial.
+Print Assumptions C07_import_release_exact.
 
 Theorem C07_add_import_counts : forall i s,
   let '(s1, x) := add_import cfg_fixed i s in
@@ -88,12 +125,9 @@ Print Assumptions C07_generation_fresh.
 Theorem C07_F20_refuted : outcome without20 h20 = W_F20 /\ outcome cfg_fixed h20 = 0.
 Proof. exact F20_refuted. Qed.
 
-(* close_releases_all, FULL STATEMENT (not proved at this strength): after Close every capability
-   the connection held (bootstrap, exports, parameter and result caps) has Shutdown count 1.
-   PROVED PART: Close from any state succeeds and leaves all tables empty (questions, answers,
-   exports, imports, embargoes, queue).  MISSING: the reference counters [s_lrefs] reach 0
-   (observed at the end of every history of the correspondence run). *)
-Theorem C07_close_releases_all_partial : forall s, exists s' o,
+(* Close from any state succeeds and leaves all tables empty (questions, answers, exports,
+   imports, embargoes, queue); the reference counters: C07_close_releases_all above *)
+Theorem C07_close_empties_tables : forall s, exists s' o,
   step cfg_fixed s AClose = Ok (s', o) /\ s_shut s' = true /\ (s_shut s = false -> tables_empty s').
 Proof. exact close_empties. Qed.
-Print Assumptions C07_close_releases_all_partial.
+Print Assumptions C07_close_empties_tables.
